@@ -554,15 +554,18 @@ def generate(repo):
     fsrc = ast.unparse(finder)
     if 'zip(items, itertools.islice(item_list, i, i + len(items)))' not in fsrc or 'item_list.extend(items)' not in fsrc:
         raise ExtractError('find_or_extend.finder: candidate test not recognised')
+    # the `if` that accepts candidate `i` (its body returns i): does its test also require the slice to exist?
     bounded = False
-    for n in ast.walk(finder):
-        if isinstance(n, ast.Compare) and len(n.ops) == 1:
-            s = ast.unparse(n).replace(' ', '')
-            if s in ('i+len(items)<=len(item_list)', 'len(item_list)>=i+len(items)', 'i+len(items)>len(item_list)',
-                     'len(item_list)<i+len(items)'):
-                bounded = True
-    if 'strict=True' in fsrc.replace(' ', ''):
-        bounded = True
+    accept = [n for n in ast.walk(finder) if isinstance(n, ast.If)
+              and any(isinstance(b, ast.Return) and ast.unparse(b.value) == 'i' for b in n.body)]
+    if len(accept) != 1:
+        raise ExtractError('find_or_extend.finder: the candidate acceptance test was not found')
+    t = accept[0].test
+    conj = t.values if isinstance(t, ast.BoolOp) and isinstance(t.op, ast.And) else [t]
+    for c in conj:
+        if isinstance(c, ast.Compare) and ast.unparse(c).replace(' ', '') in (
+                'i+len(items)<=len(item_list)', 'len(item_list)>=i+len(items)'):
+            bounded = True
     fisrc = ast.unparse(foi)
     if 'by_index[key]' not in fisrc or 'item_list.append(item)' not in fisrc:
         raise ExtractError('find_or_insert: body not recognised')
